@@ -95,7 +95,7 @@ PROPS = {
         'level_text': 'Both methods of the node trait carry the same postcondition over the same `sem`; Verus proves each extracted try_parse_partial_with and try_check_partial_with body against it (optional, pair, array, choice 2..12, predicates, stack nodes, leaves) and the check/parse full-input wrappers against one `full_ok` predicate, so verdict, offset and stack agree for all inputs. For sequences/repetitions the check path is proved and parse=check is a Kani-bounded stand-in. Identity of the error report is outside Verus (R1 erases the tracker) and is Kani-bounded.',
         'level_note': NOTE_COMMON + 'Error-report identity is only bounded.',
         'technique': TECH,
-        'verus': ['comb', 'choice', 'nodes', 'seqchk', 'repchk', 'wrappers', 'leaf'],
+        'verus': ['comb', 'choice', 'nodes', 'seqchk', 'repchk', 'wrappers', 'leaf', 'rules'],
         'expanded': True,
         'kani': K_PEG,
         'native': NB_PEG + [NB_GEN, NB_GEN_T, NB_GEN_SKIPTOK],
@@ -106,8 +106,8 @@ PROPS = {
         'level_text': 'Verus proves rule::parse/check/parse_without_ignore/check_without_ignore (verbatim bodies minus tracker) for every rule node type S and skip type IGN: success iff S matches a prefix and the position after IGN (none for the atomic pair) is the end of input; check == parse.is_some().',
         'level_note': NOTE_COMMON + 'Selection of the wrapper by rule kind (impl_parse!) and TypedParser delegation are checked by Kani-bounded harnesses only.',
         'technique': TECH,
-        'verus': ['wrappers'],
-        'expanded': False,
+        'verus': ['wrappers', 'rules'],
+        'expanded': True,
         'kani': [],
         'native': [NB_GEN, NB_GEN_T, NB_GEN_SUB, NB_GEN_SUB_T],
         'assumptions': [],
@@ -147,7 +147,7 @@ PROPS = {
         'level_text': 'Skip positions (claimed half): Verus proves for all SKIP, skip node types and element types that the check path of Seq2..12 skips exactly SKIP times before every element but the first and never after the last, that a repetition unit skips only for i > 0 and a skip before a failing iteration is undone, and that the full-input wrappers skip only in the non-atomic pair. Inheritance of atomicity (which SKIP/INHERITED the generator passes) is not applicable.',
         'level_note': NOTE_COMMON + 'Parse paths Kani-bounded; generator half n/a.',
         'technique': TECH,
-        'verus': ['seqchk', 'repchk', 'wrappers'],
+        'verus': ['seqchk', 'repchk', 'wrappers', 'rules'],
         'expanded': True,
         'kani': K_PEG,
         'native': NB_PEG + [NB_GEN, NB_GEN_T, NB_GEN_SKIPTOK],
